@@ -33,7 +33,9 @@ META = {
     "shard_timeout": {"quick": 900, "thorough": 3600},
 }
 ARGS = [([], {}), ([1], {}), ([], {"k": 1}), ([1, "two"], {"k": 1}), ([[1, 2]], {"opt": {"x": 1}}), ([None, 0, ""], {}), ([], {"a": None, "b": [3]}),
-        (["<grumpy>"], {}), ([1, "<grumpy>"], {"k": 1})]  # <grumpy>: an object whose repr() raises
+        (["<grumpy>"], {}), ([1, "<grumpy>"], {"k": 1}),
+        # keywords called like things the runtime itself has names for: they are the payload's all the same
+        ([], {"func": 1}), ([2], {"args": [3], "kwargs": {"x": 1}}), ([], {"runner": 2, "fn": 3, "target": 4, "name": 5})]  # <grumpy>: an object whose repr() raises
 
 
 def plan(tier, seed):
